@@ -110,6 +110,9 @@ def ATAN2(
     https://support.office.com/en-us/article/
         atan2-function-c04592ab-b9e3-4908-b428-c96b3a565033
     """
+    if x_num == 0 and y_num == 0:
+        raise xlerrors.DivZeroExcelError('ATAN2(0, 0) is undefined')
+
     return np.arctan2(float(y_num), float(x_num))
 
 
